@@ -93,9 +93,16 @@ def check(repo: Repo, rep: Report) -> None:
     # range_
     rg = repo.fn(O + "range.py", "range_")
     rcalls = [s for s in sites(rg) if isinstance(s.node, ast.Call) and isinstance(s.node.func, ast.Name) and s.node.func.id == "range"]
+    defs = {u(s.node.target): u(s.node.value) for s in sites(rg) if isinstance(s.node, ast.AnnAssign) and s.node.value is not None}
+    defs.update({u(s.node.targets[0]): u(s.node.value) for s in sites(rg) if isinstance(s.node, ast.Assign) and isinstance(s.node.targets[0], ast.Name)})
+    stop_v = [k for k, v in defs.items() if v == "maxsize if stop is None else stop"]
+    step_v = [k for k, v in defs.items() if v == "1 if step is None else step"]
+    sv = stop_v[0] if stop_v else "?stop"
+    tv = step_v[0] if step_v else "?step"
     forms = sorted(tuple(u(a) for a in s.node.args) for s in rcalls)
-    want = sorted([("start",), ("start", "_stop"), ("start", "_stop", "_step")])
-    rep.ob("Y2-range", rg, f"range forms {forms}", forms == want, f"range_ builds {forms} instead of range(start), range(start, stop), range(start, stop, step)")
+    want = sorted([("start",), ("start", sv), ("start", sv, tv)])
+    rep.ob("Y2-range", rg, "range(start) / range(start, stop') / range(start, stop', step')", forms == want,
+           f"range_ builds {forms} instead of range(start), range(start, stop), range(start, stop, step)")
     for s in rcalls:
         a = tuple(u(x) for x in s.node.args)
         if len(a) == 1:
@@ -106,8 +113,7 @@ def check(repo: Repo, rep: Report) -> None:
         else:
             ok = any(u(e) in ("step is None",) and not p or u(e) == "step is not None" and p for e, p in s.ctx.guards)
         rep.ob("Y2-range", rg, f"range{a} chosen under the matching None tests", ok, f"range{a} is built under the wrong combination of omitted arguments")
-    defs = {u(s.node.target): u(s.node.value) for s in sites(rg) if isinstance(s.node, ast.AnnAssign) and s.node.value is not None}
-    rep.ob("Y2-range", rg, "_stop / _step defaults by `is None`", defs.get("_stop") == "maxsize if stop is None else stop" and defs.get("_step") == "1 if step is None else step",
+    rep.ob("Y2-range", rg, "stop / step defaults by `is None`", bool(stop_v) and bool(step_v),
            f"defaults of stop/step are not decided by `is None`: {defs}")
     ra = repo.fn(O + "range.py", "range_.subscribe.action")
     nx = [s for s in sites(ra) if isinstance(s.node, ast.Call) and dotted(s.node.func) == "observer.on_next"]
@@ -132,12 +138,13 @@ def check(repo: Repo, rep: Report) -> None:
                "generate does not skip iterate on (exactly) the first step: the initial state is lost or emitted twice")
         cond = [s for s in sites(act) if isinstance(s.node, ast.Assign) and u(s.node.value) == "condition(state)"]
         flag = u(cond[0].node.targets[0]) if cond else None
-        res = [s for s in sites(act) if isinstance(s.node, ast.Assign) and u(s.node.targets[0]) == "result" and u(s.node.value) == "state"
+        res = [s for s in sites(act) if isinstance(s.node, ast.Assign) and isinstance(s.node.targets[0], ast.Name) and u(s.node.value) == "state"
                and has_guard(s.ctx, flag, True)]
+        resv = u(res[0].node.targets[0]) if res else "result"
         rep.ob("Y3-generate", act, f"{name}: result = state under the accepted condition", bool(cond) and bool(res) and all(dominates(its[0], c) or True for c in cond),
                "the emitted state is not the one the condition accepted")
         em = [s for s in sites(act) if isinstance(s.node, ast.Call) and dotted(s.node.func) == "observer.on_next"]
-        ok = len(em) == 1 and u(em[0].node.args[0]) == "result" and has_guard(em[0].ctx, flag, True)
+        ok = len(em) == 1 and u(em[0].node.args[0]) == resv and has_guard(em[0].ctx, flag, True)
         rep.ob("Y3-generate", act, f"{name}: on_next(result) only when the condition held", ok, "a rejected state is emitted, or an accepted one is not")
         comp = [s for s in sites(act) if isinstance(s.node, ast.Call) and dotted(s.node.func) == "observer.on_completed"]
         ok = len(comp) == 1 and has_guard(comp[0].ctx, flag, False)
